@@ -306,16 +306,16 @@ func (jenny RawTypes) defaultsForStructRec(context languages.Context, objectRef 
 					defaultValue = "&" + defaultValue
 				}
 			} else {
-				defaultValue = jenny.maybeValueAsPointer(defaultValue, field.Type.Nullable, resolvedFieldType)
+				defaultValue = jenny.maybeValueAsPointer(defaultValue, field.Type.Nullable, field.Type)
 			}
 		} else if field.Type.IsConcreteScalar() {
 			defaultValue = formatScalar(field.Type.Scalar.Value)
 
-			defaultValue = jenny.maybeValueAsPointer(defaultValue, field.Type.Nullable, resolvedFieldType)
+			defaultValue = jenny.maybeValueAsPointer(defaultValue, field.Type.Nullable, field.Type)
 		} else if resolvedFieldType.IsAnyOf(ast.KindScalar, ast.KindMap, ast.KindArray) && field.Type.Default != nil {
 			defaultValue = jenny.formatDefaultValue(field.Type, resolvedFieldType, field.Type.Default)
 
-			defaultValue = jenny.maybeValueAsPointer(defaultValue, field.Type.Nullable, resolvedFieldType)
+			defaultValue = jenny.maybeValueAsPointer(defaultValue, field.Type.Nullable, field.Type)
 		} else if field.Type.IsRef() && resolvedFieldType.IsStruct() && field.Type.Default != nil {
 			defaultValue = jenny.defaultsForStructRec(context, *field.Type.Ref, resolvedFieldType, field.Type.Default, expanding)
 			if field.Type.Nullable {
